@@ -12,9 +12,10 @@ Open Scope string_scope.
 (* id, cipher, mac, key exchange ("tls13" for TLS 1.3 suites), needs TLS 1.2, sha384 PRF, allowed in SSLv3 *)
 Definition suite := (Z * string * string * string * bool * bool * bool)%type.
 
-Record cred := { cr_kind : string;      (* "rsa" | "ecdsa" | "psk" (no certificate: the shared external PSK is the credential) *)
+Record cred := { cr_kind : string;      (* "rsa" | "rsapss" | "ecdsa" | "eddsa" | "dsa" | "psk" (no certificate: the shared
+                                           external PSK is the credential) | "" (no credential: no client certificate) *)
                  cr_bits : Z;           (* size of the public key *)
-                 cr_curve : string;     (* curve of an ECDSA key *)
+                 cr_curve : string;     (* curve of an ECDSA key (secp256r1, brainpoolP384r1, ...) / "Ed25519" | "Ed448" *)
                  cr_psk : string }.     (* PRF hash of the PSK both sides hold ("sha256" | "sha384"), "" = none *)
 
 Definition has (l : list val) (s : string) : bool := val_in (VStr s) l.
@@ -40,9 +41,12 @@ Definition suite_enabled (v : vw) (ver : Z * Z) (su : suite) : bool :=
 Definition kex_of (su : suite) : string := let '(_, _, _, kex, _, _, _) := su in kex.
 
 (* certificate-authenticated key exchanges and the key type they need *)
+Definition kind_is (cr : cred) (k : string) : bool := String.eqb (cr_kind cr) k.
 Definition kex_fits_cred (kex : string) (cr : cred) : bool :=
-  if String.eqb (cr_kind cr) "rsa" then existsb (String.eqb kex) ["rsa"; "dhe_rsa"; "ecdhe_rsa"; "tls13"]
-  else if String.eqb (cr_kind cr) "ecdsa" then existsb (String.eqb kex) ["ecdhe_ecdsa"; "tls13"]
+  if kind_is cr "rsa" then existsb (String.eqb kex) ["rsa"; "dhe_rsa"; "ecdhe_rsa"; "tls13"]
+  else if kind_is cr "rsapss" then existsb (String.eqb kex) ["dhe_rsa"; "ecdhe_rsa"; "tls13"]
+  else if kind_is cr "ecdsa" || kind_is cr "eddsa" then existsb (String.eqb kex) ["ecdhe_ecdsa"; "tls13"]
+  else if kind_is cr "dsa" then String.eqb kex "dhe_dsa"
   else false.
 
 Definition tls13_only_group (g : val) : bool :=
@@ -56,31 +60,59 @@ Definition group_shared (T : tables) (vc vs : vw) (ver : Z * Z) (kex : string) :
                            (inter (VG vc F_eccCurves ++ VG vc F_dhGroups) (VG vs F_eccCurves ++ VG vs F_dhGroups))))
   else if existsb (String.eqb kex) ["ecdhe_rsa"; "ecdhe_ecdsa"]
        then negb (isnil (filter (fun g => negb (tls13_only_group g)) (inter (VG vc F_eccCurves) (VG vs F_eccCurves))))
-       else if existsb (String.eqb kex) ["dhe_rsa"]
+       else if existsb (String.eqb kex) ["dhe_rsa"; "dhe_dsa"]
             then isnil (VG vc F_dhGroups) || negb (isnil (inter (VG vc F_dhGroups) (VG vs F_dhGroups)))
             else true.
 
 Definition sha2 : list string := ["sha256"; "sha384"; "sha512"].
+(* RSASSA-PSS with salt length = hash length needs emLen >= 2*hLen + 2 (RFC 8017 9.1.1): a 1024-bit key cannot
+   sign with SHA-512 *)
+Definition pss_hashes (bits : Z) : list string :=
+  filter (fun h => if String.eqb h "sha512" then (1040 <=? bits)%Z else if String.eqb h "sha384" then (784 <=? bits)%Z
+                   else (528 <=? bits)%Z) sha2.
 
-Definition sig_shared (vc vs : vw) (ver : Z * Z) (kex : string) (cr : cred) : bool :=
-  let rsa_h := inter (VG vc F_rsaSigHashes) (VG vs F_rsaSigHashes) in
-  let rsa_s := inter (VG vc F_rsaSchemes) (VG vs F_rsaSchemes) in
-  let ec_h := inter (VG vc F_ecdsaSigHashes) (VG vs F_ecdsaSigHashes) in
-  if ver_lt ver (3, 3) then true
-  else if String.eqb (cr_kind cr) "rsa"
-  then if ver_eqb ver (3, 4) then has rsa_s "pss" && any_of rsa_h sha2
-       else String.eqb kex "rsa" || (has rsa_s "pkcs1" && negb (isnil rsa_h)) || (has rsa_s "pss" && any_of rsa_h sha2)
-  else if ver_eqb ver (3, 4)
-       then (* TLS 1.3 ECDSA schemes tie the hash to the curve of the key *)
-            has ec_h (if String.eqb (cr_curve cr) "secp384r1" then "sha384"
-                      else if String.eqb (cr_curve cr) "secp521r1" then "sha512" else "sha256")
-       else negb (isnil ec_h).
+(* hash bound to the curve in the TLS 1.3 ecdsa_* schemes *)
+Definition curve_hash (c : string) : string :=
+  if existsb (String.eqb c) ["secp384r1"; "brainpoolP384r1"] then "sha384"
+  else if existsb (String.eqb c) ["secp521r1"; "brainpoolP512r1"] then "sha512" else "sha256".
+Definition is_brainpool (c : string) : bool := existsb (String.eqb c) ["brainpoolP256r1"; "brainpoolP384r1"; "brainpoolP512r1"].
 
-(* the server's key is acceptable to the client's policy *)
-Definition cred_acceptable (vc : vw) (cr : cred) : bool :=
-  if String.eqb (cr_kind cr) "rsa"
-  then ((minKeySize (VS vc) <=? cr_bits cr)%Z && (cr_bits cr <=? maxKeySize (VS vc))%Z)
-  else has (VG vc F_eccCurves) (cr_curve cr).
+(* A signature scheme for the key [cr] that both the signing and the verifying side enable at version [ver]
+   (symmetric in the two sides: used for the server's key and for the client's key).  Per-dimension reading of
+   the property: the intersection of every signature list that concerns the key must be non-empty, also when
+   the suite finally chosen is an RSA key transport one that needs no signature ([kex] is not consulted). *)
+Definition sig_shared (va vb : vw) (ver : Z * Z) (kex : string) (cr : cred) : bool :=
+  let rsa_h := inter (VG va F_rsaSigHashes) (VG vb F_rsaSigHashes) in
+  let rsa_s := inter (VG va F_rsaSchemes) (VG vb F_rsaSchemes) in
+  let ec_h := inter (VG va F_ecdsaSigHashes) (VG vb F_ecdsaSigHashes) in
+  let dsa_h := inter (VG va F_dsaSigHashes) (VG vb F_dsaSigHashes) in
+  let more := inter (VG va F_more_sig_schemes) (VG vb F_more_sig_schemes) in
+  if kind_is cr "rsa"
+  then if ver_lt ver (3, 3) then true
+       else if ver_eqb ver (3, 4) then has rsa_s "pss" && any_of rsa_h (pss_hashes (cr_bits cr))
+       else (has rsa_s "pkcs1" && negb (isnil rsa_h)) || (has rsa_s "pss" && any_of rsa_h (pss_hashes (cr_bits cr)))
+  else if kind_is cr "rsapss"            (* RSASSA-PSS keys sign with rsa_pss_pss_* only: TLS 1.2 and up *)
+  then negb (ver_lt ver (3, 3)) && has rsa_s "pss" && any_of rsa_h (pss_hashes (cr_bits cr))
+  else if kind_is cr "ecdsa"
+  then if ver_lt ver (3, 3) then true
+       else if ver_eqb ver (3, 4)
+            then (* TLS 1.3 ECDSA schemes tie the hash to the curve of the key *)
+                 if is_brainpool (cr_curve cr)
+                 then has more ("ecdsa_" ++ cr_curve cr ++ "tls13_" ++ curve_hash (cr_curve cr))
+                 else has ec_h (curve_hash (cr_curve cr))
+            else (* TLS 1.2: any enabled hash goes with any ECDSA key *) negb (isnil ec_h)
+  else if kind_is cr "eddsa"
+  then negb (ver_lt ver (3, 3)) && has more (cr_curve cr)
+  else if kind_is cr "dsa"
+  then if ver_eqb ver (3, 4) then false else ver_lt ver (3, 3) || negb (isnil dsa_h)
+  else false.
+
+(* the key is acceptable to the verifying side's policy *)
+Definition cred_acceptable (v : vw) (cr : cred) : bool :=
+  if kind_is cr "rsa" || kind_is cr "rsapss" || kind_is cr "dsa"
+  then ((minKeySize (VS v) <=? cr_bits cr)%Z && (cr_bits cr <=? maxKeySize (VS v))%Z)
+  else if kind_is cr "ecdsa" then has (VG v F_eccCurves) (cr_curve cr)
+  else true.
 
 (* one side insists on extended master secret, the other refuses it (TLS <= 1.2) *)
 Definition ems_consistent (vc vs : vw) (ver : Z * Z) : bool :=
@@ -88,8 +120,14 @@ Definition ems_consistent (vc vs : vw) (ver : Z * Z) : bool :=
   (negb (truthy (requireExtendedMasterSecret (VS vc)) && negb (truthy (useExtendedMasterSecret (VS vs))))
    && negb (truthy (requireExtendedMasterSecret (VS vs)) && negb (truthy (useExtendedMasterSecret (VS vc))))).
 
-Definition compatible_at (T : tables) (suites : list suite) (vc vs : vw) (cr : cred) (ver : Z * Z) : bool :=
-  cred_acceptable vc cr && ems_consistent vc vs ver &&
+(* client authentication (server asks with reqCert, the client holds [ccr]): a scheme for the client's key is
+   shared at this version and the key is acceptable to the server's policy.  (A client holding a certificate
+   it cannot use aborts rather than answering with an empty list: no demand is made for such pairs.) *)
+Definition client_auth_ok (vc vs : vw) (ver : Z * Z) (ccr : cred) : bool :=
+  kind_is ccr "" || (sig_shared vc vs ver "" ccr && cred_acceptable vs ccr).
+
+Definition compatible_at (T : tables) (suites : list suite) (vc vs : vw) (cr ccr : cred) (ver : Z * Z) : bool :=
+  cred_acceptable vc cr && ems_consistent vc vs ver && client_auth_ok vc vs ver ccr &&
   existsb (fun su => suite_enabled vc ver su && suite_enabled vs ver su && kex_fits_cred (kex_of su) cr
                      && group_shared T vc vs ver (kex_of su) && sig_shared vc vs ver (kex_of su) cr) suites.
 
@@ -112,14 +150,14 @@ Definition compatible_psk_at (T : tables) (suites : list suite) (vc vs : vw) (h 
    (has (VG vc F_psk_modes) "psk_dhe_ke" && has (VG vs F_psk_modes) "psk_dhe_ke" && group_shared T vc vs ver "tls13")).
 
 (* "share a protocol version and, for it, ...": read as the version TLS negotiates, the highest shared one *)
-Definition compatible (T : tables) (suites : list suite) (vc vs : vw) (cr : cred) : bool :=
+Definition compatible (T : tables) (suites : list suite) (vc vs : vw) (cr ccr : cred) : bool :=
   match shared_versions vc vs with
   | [] => false
   | ver :: _ => if String.eqb (cr_kind cr) "psk" then compatible_psk_at T suites vc vs (cr_psk cr) ver
-                else compatible_at T suites vc vs cr ver
+                else compatible_at T suites vc vs cr ccr ver
   end.
 
 (* the weaker reading: SOME shared version has everything (recorded, not enforced) *)
-Definition compatible_any (T : tables) (suites : list suite) (vc vs : vw) (cr : cred) : bool :=
+Definition compatible_any (T : tables) (suites : list suite) (vc vs : vw) (cr ccr : cred) : bool :=
   if String.eqb (cr_kind cr) "psk" then existsb (compatible_psk_at T suites vc vs (cr_psk cr)) (shared_versions vc vs)
-  else existsb (compatible_at T suites vc vs cr) (shared_versions vc vs).
+  else existsb (compatible_at T suites vc vs cr ccr) (shared_versions vc vs).
